@@ -728,7 +728,7 @@ func (ls *LState) formattedFrameFuncName(fr *callFrame) string {
 	if ischunk {
 		return name
 	}
-	if name[0] != '(' && name[0] != '<' {
+	if len(name) == 0 || (name[0] != '(' && name[0] != '<') { // the callee may be named by an empty string key
 		return fmt.Sprintf("function '%s'", name)
 	}
 	return fmt.Sprintf("function %s", name)
